@@ -45,11 +45,15 @@ def _argument_to_json_like(arg, depth=0):
     elif isinstance(arg, (list, tuple)):
         return [_argument_to_json_like(i, depth + 1) for i in arg]
     elif isinstance(arg, dict):
-        arg = {k: _argument_to_json_like(v, depth + 1) for k, v in arg.items()}
+        escape = False
         if depth < 2 and len(arg) == 1:
-            key, val = next(iter(arg.items()))
-            if isinstance(key, str) and key.lower().split(".")[0] == "path":
-                arg = {"\\" + key: val}
+            key = next(iter(arg))
+            escape = isinstance(key, str) and key.lower().split(".")[0] == "path"
+        # (`from_spec` does not look for data path specifications inside an escaped mapping)
+        depth = 2 if escape else depth + 1
+        arg = {k: _argument_to_json_like(v, depth) for k, v in arg.items()}
+        if escape:
+            arg = {"\\" + k: v for k, v in arg.items()}
     return arg
 
 
